@@ -17,6 +17,7 @@ import (
 	"os"
 	"strings"
 	"sync"
+	"sync/atomic"
 	"testing"
 	"testing/synctest"
 	"time"
@@ -125,6 +126,8 @@ func (wd *world) hook(point string, obj any) {
 	wd.ctl.Hook(point, obj)
 }
 
+type connCtxKey struct{}
+
 type opHandler struct{ wd *world }
 
 type stringer struct{}
@@ -174,11 +177,18 @@ func newWorld(w *vh.Writer, seed int64) *world {
 			if wd.hookOut[c] == "fail" {
 				return ctx, errors.New("connect hook refuses")
 			}
-			return ctx, nil
+			// the connection's number travels in the context the hook returns: the terminate hook knows its connection whatever
+			// goroutine it is called on
+			return context.WithValue(ctx, connCtxKey{}, c), nil
 		}).
 		WithTerminateHook(func(ctx context.Context) {
+			c, ok := ctx.Value(connCtxKey{}).(int)
+			if !ok {
+				c = wd.connOf[sched.Gid()]
+			}
+			wd.w.Emit(map[string]any{"ev": "obs", "kind": "terminate-hook-entered", "c": c})
 			wd.ctl.Hook("u.terminate", nil)
-			wd.termhk[wd.connOf[sched.Gid()]]++
+			wd.termhk[c]++
 		})
 	kmipserver.VerifHook = wd.hook
 	return wd
@@ -646,6 +656,28 @@ func TestRuns(t *testing.T) {
 		}
 	}
 	shutdown := vh.Env("VERIF_SHUTDOWN", "0") == "1"
+	// watchdog (outside the bubble, wall clock): a run that makes no progress for 12 s cannot be continued by the controller - a library
+	// goroutine is blocked on something the controller cannot see (a sync.Mutex held by a goroutine parked at a gate). The events
+	// recorded so far are kept, the run is marked, the process ends and is restarted after it.
+	var progress atomic.Int64 // bumped inside the bubble (where time.Now is virtual); the watchdog keeps the wall clock itself
+	var curRun atomic.Value
+	go func() {
+		seen, since := int64(-1), time.Now()
+		for {
+			time.Sleep(time.Second)
+			if p := progress.Load(); p != seen {
+				seen, since = p, time.Now()
+				continue
+			}
+			if time.Since(since) > 12*time.Second {
+				w.Emit(map[string]any{"ev": "obs", "kind": "driver-hang"})
+				w.Flush()
+				fmt.Fprintf(prog, "hang %v\n", curRun.Load())
+				prog.Sync()
+				os.Exit(3)
+			}
+		}
+	}()
 	run := func(sc Schedule, seed int64, steps int) {
 		n++
 		if n <= skip {
@@ -654,7 +686,10 @@ func TestRuns(t *testing.T) {
 		fmt.Fprintf(prog, "%d %s\n", n, sc.ID)
 		prog.Sync()
 		w.Flush()
+		progress.Add(1)
+		curRun.Store(fmt.Sprintf("%d %s", n, sc.ID))
 		runOne(t, w, sc, seed, steps, shutdown)
+		progress.Add(1)
 	}
 	defer func() {
 		if r := recover(); r != nil {
